@@ -134,6 +134,7 @@ class gre (packet_base):
         if csum_present or route_present:
             self.csum,self.route_offset = struct.unpack("!HH", raw[o:o+4])
             o += 4
+            if not csum_present: self.csum = None # (Field is there but unused)
             if self.verify_csum:
                 if checksum(raw) != 0:
                     self.msg('warning GRE checksum did not match')
